@@ -78,9 +78,9 @@ const SuperlinearFactor = 7
 // checkLinear applies the scale-free linearity oracle to a pair of pumped inputs.
 func checkLinear(small, big pparse.Call, variant int, schedSeed uint64) (*wk.Failure, int64) {
 	ch1, _ := pparse.ChooserFor(0, schedSeed)
-	_, r1 := pparse.RunOne(small, ch1, int64(StepsPerByte)*int64(small.Len()+64))
+	_, r1 := pparse.RunOne(small, ch1, int64(StepsPerByte)*int64(small.Len()+64), simrt.SpeedFor(schedSeed))
 	ch2, _ := pparse.ChooserFor(0, schedSeed)
-	_, r2 := pparse.RunOne(big, ch2, int64(StepsPerByte)*int64(big.Len()+64))
+	_, r2 := pparse.RunOne(big, ch2, int64(StepsPerByte)*int64(big.Len()+64), simrt.SpeedFor(schedSeed))
 	if r1.Budget || r2.Budget || r1.Deadlock || r2.Deadlock {
 		return nil, r1.Steps + r2.Steps // reported by the absolute bound
 	}
@@ -254,7 +254,7 @@ func checkParse(call pparse.Call, variant int, schedSeed uint64, replay []simrt.
 		ch = &simrt.Replay{List: replay}
 	}
 	budget := int64(StepsPerByte) * int64(call.Len()+64)
-	out, res := pparse.RunOne(call, ch, budget)
+	out, res := pparse.RunOne(call, ch, budget, simrt.SpeedFor(schedSeed+uint64(variant)))
 	mk := func(class, site, detail string) *wk.Failure {
 		pc := parseCase{Call: call, Variant: variant, SchedSeed: schedSeed, Shrink: []string{"call.input"}}
 		if len(res.Decisions) <= 5000 {
@@ -344,6 +344,11 @@ func C05(c *wk.Ctx) {
 			u.Counters["entry_"+call.Entry]++
 			u.Counters["kind_"+call.Kind]++
 			u.Counters["switches"] += res.Switches
+			u.Counters["simulated_nanoseconds"] += res.SimNanos
+			u.Counters["clock_reads"] += res.ClockReads
+			u.Counters["timers_armed"] += res.TimersArmed
+			u.Counters["timers_fired"] += res.TimersFired
+			u.Counters["clock_jumps"] += res.ClockJumps
 			u.Counters["chan_ops"] += res.ChanOps
 			if out.Err != "" {
 				u.Counters["returned_error"]++
